@@ -3,6 +3,9 @@
 //! The inner linear solve (`invert_matrix`) is not modelled on the Coq side: for every `fit` the harness recomputes the
 //! argument the implementation passes to it with the crate's own public `vandermonde` and `xtx`, calls the crate's public
 //! `invert_matrix` on it and records (argument bits, result bits | panic) in the case (`Call arg res` / `NoCall`).
+//!
+//! End-to-end family (`CFitE`, `CSeqE`): the same inputs and outcomes WITHOUT any record; the Coq side computes the
+//! inner solve with C01's executable model of `invert_matrix` (Model/SolveInst.v), so `fit` is reproduced whole.
 use crate::util::*;
 use compute::linalg::{invert_matrix, vandermonde, xtx};
 use compute::predict::PolynomialRegressor;
@@ -57,6 +60,8 @@ fn push_fit(cs: &mut Cases, k: usize, x: &[f64], y: &[f64], tag: &str) {
     let nonconst = x.iter().any(|v| v.to_bits() != x[0].to_bits()) && y.iter().any(|v| v.to_bits() != y[0].to_bits());
     let t = format!("{}/{}", tag, if res.is_ok() { "value" } else { "panic" });
     cs.push(app("CFit", vec![Tm::Nat(k as u64), fl(x), fl(y), inv_record(k, x, y), outcome_list(&res)]), &t, x.len() >= 3 && nonconst);
+    // end to end: no record, the inner solve is computed by C01's model on the Coq side
+    cs.push(app("CFitE", vec![Tm::Nat(k as u64), fl(x), fl(y), outcome_list(&res)]), &format!("e2e-{}", t), x.len() >= 3 && nonconst);
 }
 
 pub fn gen(tier: &str, seed: u64, outdir: &str) {
@@ -145,9 +150,11 @@ pub fn gen(tier: &str, seed: u64, outdir: &str) {
         let terms: Vec<Tm> = ops.iter().zip(recs).map(|((kind, a, b), rc)| match kind { 0 => app("KFit", vec![fl(a), fl(b), rc]), 1 => app("KPredict", vec![fl(a)]), _ => app("KSet", vec![fl(a)]) }).collect();
         let nfit = ops.iter().filter(|o| o.0 == 0).count();
         cs.push(app("CSeq", vec![Tm::Nat(deg as u64), Tm::L(terms), outcome_list(&res)]), if res.is_ok() { "program/value" } else { "program/panic" }, nops >= 2 && nfit >= 1);
+        let terms_e: Vec<Tm> = ops.iter().map(|(kind, a, b)| match kind { 0 => app("KFit", vec![fl(a), fl(b), Tm::Raw("NoCall".into())]), 1 => app("KPredict", vec![fl(a)]), _ => app("KSet", vec![fl(a)]) }).collect();
+        cs.push(app("CSeqE", vec![Tm::Nat(deg as u64), Tm::L(terms_e), outcome_list(&res)]), if res.is_ok() { "e2e-program/value" } else { "e2e-program/panic" }, nops >= 2 && nfit >= 1);
     }
     cs.write(outdir, 60,
-             "vandermonde over a box of (length, order) with special values and orders to 40; predict for every coefficient length 0..9 with special values; fit for degrees 0..6 x {uniform, clustered, Chebyshev, quarter-integer, integer} abscissae in [-2,2] x every n from degree+1 upward (all residues), random n to 120 (quick) / 300 (thorough), n to 2000, responses = polynomial + noise of scale 0..1e4 and exact-integer cases; a degenerate/malformed stream (n < k, repeated abscissae, special values, k = 0, length mismatch, empty data); programs new(deg) + fits/predicts/coef assignments. Each fit case carries the recorded call of the crate's invert_matrix. Non-trivial = fit with n >= 3 and non-constant x and y; predict with >= 2 coefficients; vandermonde of order >= 3; programs with >= 2 steps incl. a fit; distinct by hash of the case term");
+             "vandermonde over a box of (length, order) with special values and orders to 40; predict for every coefficient length 0..9 with special values; fit for degrees 0..6 x {uniform, clustered, Chebyshev, quarter-integer, integer} abscissae in [-2,2] x every n from degree+1 upward (all residues), random n to 120 (quick) / 300 (thorough), n to 2000, responses = polynomial + noise of scale 0..1e4 and exact-integer cases; a degenerate/malformed stream (n < k, repeated abscissae, special values, k = 0, length mismatch, empty data); programs new(deg) + fits/predicts/coef assignments. Each fit case carries the recorded call of the crate's invert_matrix; every fit and every program is ALSO checked end to end (tags e2e-*: no record, the inner solve computed by C01's executable model of invert_matrix inside Coq). Non-trivial = fit with n >= 3 and non-constant x and y; predict with >= 2 coefficients; vandermonde of order >= 3; programs with >= 2 steps incl. a fit; distinct by hash of the case term");
 }
 
 // ---------------------------------------------------------------------------------------------
